@@ -164,7 +164,9 @@ func C10(c *core.Ctx) {
 	c.Add("distinct_nontrivial", nt)
 	c.Sample(map[string]any{"input": cases[0]["text"], "expansion": cases[0]["obs"]})
 	c.JudgeAndReport("Trace_Accrual", "Trace_Accrual.cfg", cases, 16,
-		func(old map[string]any) map[string]any { return observeAccrual(old["id"].(int), acs[old["id"].(int)-1]) },
+		func(old map[string]any) map[string]any {
+			return observeAccrual(old["id"].(int), acs[old["id"].(int)-1])
+		},
 		func(cs map[string]any) (string, string) {
 			sig := "accrual:" + fmt.Sprint(cs["why"])
 			if cs["why"] == "totals-not-conserved" && strings.Contains(fmt.Sprint(cs["text"]), "Equity") {
